@@ -217,6 +217,50 @@ func checkList(t ev.TB, check string, c listCase) {
 	for i := len(c.Tables) - 1; i >= 0; i-- {
 		readTo(i)
 	}
+	// --- the answers are the caller's: whatever the caller does with the slices it received
+	// (filtering the tag list in place, re-sorting it, scribbling over table bytes or over the
+	// recycled storage), asking the same loader again still returns what was written
+	for i, j := 0, len(tags)-1; i < j; i, j = i+1, j-1 {
+		tags[i], tags[j] = tags[j], tags[i]
+	}
+	kept := tags[:0]
+	for i, tg := range tags {
+		if i%2 == 1 {
+			kept = append(kept, tg)
+		}
+	}
+	for i := range kept {
+		kept[i] = 0
+	}
+	_ = append(tags[:0], 0xFFFFFFFF)
+	for i := range buf {
+		buf[i] = 0x5A
+	}
+	firstReads := make([][]byte, n)
+	for i, tc := range c.Tables {
+		firstReads[i], _ = ld.RawTable(ot.Tag(tc.Tag))
+	}
+	for _, b := range firstReads {
+		for i := range b {
+			b[i] ^= 0xFF
+		}
+	}
+	tagsAgain := ld.Tables()
+	if len(tagsAgain) != n {
+		fail("second listing reports %d tables, want %d (the caller had modified the first listing in place)", len(tagsAgain), n)
+	}
+	for i, tc := range c.Tables {
+		if uint32(tagsAgain[i]) != tc.Tag {
+			fail("second listing, after the caller modified the first one in place: tag %d = %#x, want %#x", i, uint32(tagsAgain[i]), tc.Tag)
+		}
+		if !ld.HasTable(ot.Tag(tc.Tag)) {
+			fail("HasTable(%#x) false for a written table", tc.Tag)
+		}
+		got, err := ld.RawTable(tagsAgain[i])
+		if err != nil || !bytes.Equal(got, tc.Content) {
+			fail("second RawTable(%#x), after the caller overwrote the bytes it received the first time: err=%v, %d bytes, want the %d bytes written", tc.Tag, err, len(got), len(tc.Content))
+		}
+	}
 	// classification
 	residues := map[int]bool{}
 	spare := false
